@@ -215,3 +215,34 @@ macro_rules! impl_cache {
 impl_cache!(Clocks);
 impl_cache!(PoolStorage);
 impl_cache!(OtherState);
+
+/// Verification hooks (add-only, compiled only with `--cfg gmsol_verif`).
+#[cfg(gmsol_verif)]
+pub mod verif {
+    use gmsol_model::PoolKind;
+
+    use crate::states::Market;
+
+    /// Revision counter of the market's revertible buffer.
+    pub fn buffer_rev(market: &Market) -> u64 {
+        market.buffer.rev
+    }
+
+    /// Revision stamps of a pool slot: `(storage slot, buffer slot)`.
+    pub fn pool_slot_revs(market: &Market, kind: PoolKind) -> Option<(u64, u64)> {
+        Some((
+            market.state.pools.get(kind)?.rev,
+            market.buffer.state.pools.get(kind)?.rev,
+        ))
+    }
+
+    /// Revision stamps of the clocks slot: `(storage slot, buffer slot)`.
+    pub fn clocks_slot_revs(market: &Market) -> (u64, u64) {
+        (market.state.clocks.rev, market.buffer.state.clocks.rev)
+    }
+
+    /// Revision stamps of the other-state slot: `(storage slot, buffer slot)`.
+    pub fn other_slot_revs(market: &Market) -> (u64, u64) {
+        (market.state.other.rev, market.buffer.state.other.rev)
+    }
+}
